@@ -23,6 +23,7 @@ def build(H, tier, seed):
     A.vc_swap_blades(H, lengths=range(0, 9) if tier == 'quick' else range(0, 17))
     A.vc_compute_sign(H)
     A.vc_blade2canon(H)
+    A.vc_blade2canon_concrete(H)
     A.vc_bladedict_getitem(H)
     D.vc_call_binary(H)
     O.vc_equality_fields(H)
